@@ -803,6 +803,13 @@ func (g *treeGen) eqLeaf() Node {
 	case 7:
 		return Node{"t": "mp", "ks": []any{[]any{"k"}, []any{"j"}}, "vs": []any{[]any{"1"}, []any{fmt.Sprint(2 + g.rng.Intn(7))}}}
 	case 8:
+		if g.rng.Intn(2) == 0 {
+			vals := []any{Node{"t": "nil"}, Node{"t": "leaf", "ty": "str", "v": []any{"x"}}}
+			if g.rng.Intn(2) == 0 {
+				vals[0], vals[1] = vals[1], vals[0]
+			}
+			return Node{"t": "mpa", "ks": []any{[]any{"k"}, []any{"j"}}, "e": vals}
+		}
 		return Node{"t": "st", "a": []any{fmt.Sprint(1 + g.rng.Intn(8))}, "p": []any{"p"}, "c": []any{"c"}}
 	case 9:
 		return Node{"t": "ptr", "d": 1, "x": Node{"t": "st", "a": []any{"3"}, "p": []any{"r"}, "c": []any{"d"}}}
@@ -888,6 +895,16 @@ func (g *treeGen) mutate(n map[string]any) {
 			} else {
 				ks := kids("ks")
 				ks[i] = bump(ks[i])
+			}
+		}
+	case "mpa":
+		e := kids("e")
+		if len(e) > 0 {
+			i := g.rng.Intn(len(e))
+			if m, _ := e[i].(map[string]any); m != nil && m["t"] == "nil" {
+				e[i] = Node{"t": "leaf", "ty": "str", "v": []any{"q"}}
+			} else {
+				e[i] = Node{"t": "nil"}
 			}
 		}
 	case "st":
